@@ -25,6 +25,13 @@ ProgRI(o, a, i) ==
   "main:\n    li t0, " \o S(a) \o "\n    " \o o \o " t2, t0, " \o S(i) \o "\n"
   \o "    mv a7, t2\n    mv a0, t2\n    ecall\n    li a7, 10\n    ecall\n"
 
+\* the zero register as an operand (the analysis has special cases for it)
+ProgRZ(o, b) ==
+  "main:\n    li t1, " \o S(b) \o "\n    " \o o \o " t2, zero, t1\n    " \o o \o " t3, t1, zero\n"
+  \o "    mv a7, t2\n    mv a0, t3\n    ecall\n    li a7, 10\n    ecall\n"
+ProgIZ(o, i) ==
+  "main:\n    " \o o \o " t2, zero, " \o S(i) \o "\n"
+  \o "    mv a7, t2\n    mv a0, t2\n    ecall\n    li a7, 10\n    ecall\n"
 Init == phase = "start" /\ op = "" /\ x = 0 /\ y = 0
 Pick ==
   /\ phase = "start"
@@ -33,10 +40,17 @@ Pick ==
      \/ \E o \in 1..Len(RI), a \in 1..Len(Vals), i \in 1..Len(Imms) :
           /\ op' = RI[o] /\ x' = Vals[a]
           /\ y' = (IF RI[o] \in {"slli", "srli", "srai"} THEN Shamts[((i - 1) % Len(Shamts)) + 1] ELSE Imms[i])
+     \/ \E o \in 1..Len(RR), b \in 1..Len(Vals) : op' = "z:" \o RR[o] /\ x' = 0 /\ y' = Vals[b]
+     \/ \E o \in 1..Len(RI), i \in 1..Len(Imms) :
+          /\ op' = "z:" \o RI[o] /\ x' = 0
+          /\ y' = (IF RI[o] \in {"slli", "srli", "srai"} THEN Shamts[((i - 1) % Len(Shamts)) + 1] ELSE Imms[i])
   /\ phase' = "emit"
 Emit ==
   /\ phase = "emit"
-  /\ PrintT("CASE " \o ToJson([text |-> (IF \E o \in 1..Len(RR) : RR[o] = op THEN ProgRR(op, x, y) ELSE ProgRI(op, x, y)),
+  /\ PrintT("CASE " \o ToJson([text |-> (IF \E o \in 1..Len(RR) : RR[o] = op THEN ProgRR(op, x, y)
+                                          ELSE IF \E o \in 1..Len(RI) : RI[o] = op THEN ProgRI(op, x, y)
+                                          ELSE IF \E o \in 1..Len(RR) : "z:" \o RR[o] = op THEN ProgRZ(SubSeq(op, 3, Len(op)), y)
+                                          ELSE ProgIZ(SubSeq(op, 3, Len(op)), y)),
                                op |-> op, x |-> x, y |-> y]))
   /\ phase' = "done" /\ UNCHANGED <<op, x, y>>
 Next == Pick \/ Emit
